@@ -173,7 +173,38 @@ def _w(task):
     return (kind,) + (check_ll(x) if kind == "ll" else check_call(x))
 
 
+def parameters_under_let(chk):
+    """Binding `exactly like the equivalent Python def` includes that a parameter is a local of the function whatever the
+    surroundings: a function defined inside a `let` that binds the same names still sees its arguments.  One program per
+    parameter kind and one with all kinds, run by CPython against the equivalent nested def."""
+    import types
+    import hy
+    progs = {
+        "positional-only": ("(let [a \"L\"] (defn f [a /] a))", "(f 1)", 1),
+        "ordinary": ("(let [a \"L\"] (defn f [a] a))", "(f 1)", 1),
+        "with default": ("(let [a \"L\"] (defn f [[a 5]] a))", "(f)", 5),
+        "star": ("(let [a \"L\"] (defn f [#* a] a))", "(f 1 2)", (1, 2)),
+        "keyword-only": ("(let [a \"L\"] (defn f [* a] a))", "(f :a 1)", 1),
+        "double-star": ("(let [a \"L\"] (defn f [#** a] a))", "(f :k 1)", {"k": 1}),
+        "all kinds": ("(let [a \"La\" b \"Lb\" c \"Lc\" xs \"Lx\" k \"Lk\" kw \"Lw\"] (defn f [a [b 2] / [c 3] #* xs [k 4] #** kw] #(a b c xs k kw)))",
+                      "(f 1 :k 9 :z 0)", (1, 2, 3, (), 9, {"z": 0})),
+        "anonymous, two levels below the let": ("(let [a \"L\"] (defn g [] (fn [a / b] #(a b))) (setv f (g)))", "(f 1 2)", (1, 2)),
+    }
+    for kind, (definition, call, want) in progs.items():
+        mod = types.ModuleType("hv_c05_let")
+        try:
+            hy.eval(hy.read_many(definition), module=mod, locals=mod.__dict__)
+            got = hy.eval(hy.read(call), module=mod, locals=mod.__dict__)
+        except Exception as e:  # noqa: BLE001
+            got = f"{type(e).__name__}: {e}"
+        chk.case(("let", kind))
+        chk.ob(f"under-let/{kind} parameter shadows a let binding of the same name", got == want, "cpython-oracle", "proved",
+               detail=f"{definition} {call} -> {got!r}, the equivalent def gives {want!r}",
+               replay={"confirmed": got != want, "input": definition + " " + call, "observed": repr(got), "expected": repr(want)})
+
+
 def run(chk):
+    parameters_under_let(chk)
     quick = chk.tier == "quick"
     maxn = 4 if quick else 6
     lls = lambda_lists(maxn)
